@@ -292,6 +292,11 @@ func (bf *boundsFn) classifyLoop(li *loopInfo) (string, string) {
 						return "reader-driven (every iteration consumes input and the loop ends when the read fails)", ""
 					}
 				}
+				// a library helper that moves a cursor field forward inside a
+				// buffer field of the struct it is given, and fails at its end
+				if obj, cur, ok := bf.B.consumingHelper(ci); ok && exitsOn(ci) && !cursorMovedBack(li, obj, cur, bf.B) {
+					return "reader-driven (the helper advances a cursor field bounded by the length of its buffer field; the loop ends when it fails)", ""
+				}
 			}
 		}
 	}
@@ -498,4 +503,174 @@ func (B *Bounds) strictSuffixCall(e ssa.Value, of ssa.Value) bool {
 		}
 	}
 	return n > 0
+}
+
+// consumingHelper: call is a static call g(…, p, …) with p a pointer to a
+// library struct that has a cursor field F (int) and a buffer field G (slice)
+// such that every return of g that may be a success has passed a store
+// p.F = v with  v ≥ old p.F + 1  and  old p.F < len(p.G)  provable at the
+// store, and g never assigns p.G. Each successful call therefore moves the
+// cursor forward inside a buffer of fixed length: only finitely many calls can
+// succeed. Returns the argument that is the struct pointer.
+func (B *Bounds) consumingHelper(call *ssa.Call) (ssa.Value, nilField, bool) {
+	if call.Call.IsInvoke() {
+		return nil, nilField{}, false
+	}
+	g := call.Call.StaticCallee()
+	if g == nil || g.Blocks == nil {
+		return nil, nilField{}, false
+	}
+	cf := B.of(g)
+	for k, p := range g.Params {
+		if k >= len(call.Call.Args) {
+			break
+		}
+		pt, ok := p.Type().Underlying().(*types.Pointer)
+		if !ok {
+			continue
+		}
+		if _, ok := pt.Elem().Underlying().(*types.Struct); !ok {
+			continue
+		}
+		// loads of the fields of p
+		var loadsF = map[int][]*ssa.UnOp{}
+		var stores []*ssa.Store
+		for _, b := range g.Blocks {
+			for _, ins := range b.Instrs {
+				switch x := ins.(type) {
+				case *ssa.UnOp:
+					if x.Op == token.MUL {
+						if base, nf, ok := fieldOf(x.X); ok && base == ssa.Value(p) {
+							loadsF[nf.F] = append(loadsF[nf.F], x)
+						}
+					}
+				case *ssa.Store:
+					if base, _, ok := fieldOf(x.Addr); ok && base == ssa.Value(p) {
+						stores = append(stores, x)
+					}
+				}
+			}
+		}
+		good := map[ssa.Instruction]bool{}
+		var cursor nilField
+		found := false
+		for _, st := range stores {
+			_, nf, _ := fieldOf(st.Addr)
+			ft := nf.T.Underlying().(*types.Struct).Field(nf.F).Type()
+			if !isIntType(ft) {
+				if _, isSlice := ft.Underlying().(*types.Slice); isSlice {
+					good = nil // the buffer itself is replaced
+				}
+				continue
+			}
+			if found && nf.F != cursor.F {
+				continue
+			}
+			val := cf.affOf(st.Val)
+			for _, old := range loadsF[nf.F] {
+				if !old.Block().Dominates(st.Block()) {
+					continue
+				}
+				oa := cf.affOf(old)
+				if !cf.proveAt(val.add(oa, -1).add(affConst(1), -1), st.Block(), st) {
+					continue
+				}
+				for gi, gl := range loadsF {
+					st2 := nf.T.Underlying().(*types.Struct).Field(gi).Type()
+					if _, isSlice := st2.Underlying().(*types.Slice); !isSlice {
+						continue
+					}
+					for _, lg := range gl {
+						if cf.proveAt(cf.lenAff(lg).add(oa, -1).add(affConst(1), -1), st.Block(), st) && good != nil {
+							good[st] = true
+							cursor, found = nf, true
+						}
+					}
+				}
+			}
+		}
+		if good == nil || !found {
+			continue
+		}
+		// every possible success return has passed a qualifying store
+		passed := map[*ssa.BasicBlock]bool{}
+		in := map[*ssa.BasicBlock]bool{}
+		for _, b := range g.Blocks {
+			in[b], passed[b] = true, true
+		}
+		in[g.Blocks[0]] = false
+		for changed := true; changed; {
+			changed = false
+			for _, b := range g.Blocks {
+				s := in[b]
+				if b != g.Blocks[0] {
+					s = true
+					for _, pr := range b.Preds {
+						s = s && passed[pr]
+					}
+				}
+				o := s
+				for _, ins := range b.Instrs {
+					if good[ins] {
+						o = true
+					}
+				}
+				if s != in[b] || o != passed[b] {
+					in[b], passed[b] = s, o
+					changed = true
+				}
+			}
+		}
+		all, successes := true, 0
+		for _, b := range g.Blocks {
+			r, ok := b.Instrs[len(b.Instrs)-1].(*ssa.Return)
+			if !ok {
+				continue
+			}
+			if n := len(r.Results); n > 0 && isErrorType(r.Results[n-1].Type()) && errorReturn(r.Results[n-1], b) {
+				continue
+			}
+			successes++
+			if !passed[b] {
+				all = false
+			}
+		}
+		if all && successes > 0 {
+			return call.Call.Args[k], cursor, true
+		}
+	}
+	return nil, nilField{}, false
+}
+
+// cursorMovedBack: something in the loop other than consuming helpers and
+// write-free callees may assign the cursor field of obj.
+func cursorMovedBack(li *loopInfo, obj ssa.Value, cur nilField, B *Bounds) bool {
+	for b := range li.body {
+		for _, ins := range b.Instrs {
+			switch x := ins.(type) {
+			case *ssa.Store:
+				if _, nf, ok := fieldOf(x.Addr); ok && nf.F == cur.F && types.Identical(nf.T, cur.T) {
+					return true
+				}
+			case *ssa.Call:
+				uses := false
+				for _, a := range x.Call.Args {
+					if a == obj {
+						uses = true
+					}
+				}
+				if !uses {
+					continue
+				}
+				if _, _, ok := B.consumingHelper(x); ok {
+					continue
+				}
+				if callee := x.Call.StaticCallee(); callee != nil && callee.Blocks != nil && B.writeFree(callee) {
+					continue
+				}
+				return true
+			}
+		}
+	}
+	return false
 }
